@@ -1231,6 +1231,13 @@ func (fr *Frame) execTypeAssert(x *ssa.TypeAssert) {
 		tag := c.V.typeTag(at)
 		ok = eq(app(SInt, "itag", v), tInt(int64(tag)))
 		res = c.unbox(app(SInt, "iref", v), c.sortOf(at))
+		// a value of the asserted type satisfies that type's invariant (ranges, slice shape)
+		if res.Sort == SInt || res.Sort == SSlice || res.Sort == SIface {
+			n := c.fresh("ta", res.Sort)
+			c.assumeDef(eq(n, res))
+			c.assumeTypeInv(n, at, fr.st)
+			res = n
+		}
 	}
 	if x.CommaOk {
 		// failed assertion yields the zero value
